@@ -106,7 +106,7 @@ class Case:
 def run(ctx):
     rng = ctx.rng
     nrand = 6 if not ctx.thorough else 25
-    schemas = [msggen.matrix_schema()] + [msggen.random_schema(rng) for _ in range(nrand)]
+    schemas = [msggen.matrix_schema()] + [msggen.random_schema(rng) for _ in range(nrand)] + msggen.twin_schemas()
     prelude = "\n".join(f"Definition sc{i} : schema := {s.coq()}." for i, s in enumerate(schemas))
     refs = []
     for si, s in enumerate(schemas):
